@@ -35,6 +35,9 @@ MCFieldNames == {"x", "y", "z", "w", "key", "value", "id", "count", "type", "fun
 MCFieldNamesMethods == {"x", "reset", "string", "tLTag", "tLName", "readJSON", "writeJSON", "readTL1", "writeTL1",
                         "readTL2", "writeTL2", "read", "write", "fillRandom", "Reset", "String", "TLTag", "TLName",
                         "ReadJSON", "Read", "Write"}
+(* names that collide only after deconfliction: `write` becomes Write0 (Write is a generated method),
+   which a literal `write0` then meets; likewise string / string0 and a three-way x / X / x0 family *)
+MCFieldNamesDeconf == {"x", "write", "write0", "Write0", "string", "string0", "reset0", "reset"}
 MCFieldNamesSmall == {"x", "type", "String"}
 MCFieldNamesTiny == {"x", "type"}
 MCFieldNamesOne == {"v"}
